@@ -11,6 +11,7 @@ and captured values, corresponds to the VM closure holding `bodyCode body` and t
 All theorems hold for every program, every fuel, every initial store and global table, every stack below the frame.
 -/
 import SteelVerif.C01.CoreSimCall
+import SteelVerif.C01.CoreErr
 namespace SteelVerif.C01C
 
 /-! ## Compiled execution agrees with the reference semantics -/
@@ -397,15 +398,10 @@ theorem dead_code_never_runs_core' (fuel : Nat) (c dead e : Core) (σ σ1 σ' : 
 
 /-! ## Errors are outcomes of the VM, not stuck states
 
-FULL STATEMENT (not proved yet — it needs a second pass over all cases of `sim_all`, one per place where `evalC`
-propagates or raises an error):
-
-    theorem compile_correct_core_errors (fuel) (e) (σ) (k : Err) (hk : k ≠ .bad)
-        (h : evalTop fuel e σ = .err k) : ∃ n, run n (initCfg (compileTop e) (toSt σ)) = .err k
-
-What is proved: the two kinds of error a CALL can raise itself (arity mismatch, callee not a procedure) are reported by
-the VM with the same kind, after the operands and the callee have been evaluated (`call_error_reported`), and at the
-level of single instructions (`call_args_exact_core` above: arity; `call_of_nonprocedure_is_error`). -/
+`compile_correct_core_errors` is the full statement (every construct, every error kind except `bad` = ill-formed
+program, where the real VM panics); `vm_outcome_is_semantic_outcome` is the converse direction: whatever the VM reports
+(value or error) is what the semantics yields, so an error in the VM implies that the semantics raises it — code that is
+not executed never raises.  `call_error_reported`, `call_of_nonprocedure_is_error` are instruction-level instances. -/
 
 theorem run_err_of_steps : ∀ (n : Nat) (a b : Cfg) (k : Err),
     steps n a = some b → step b = .err k → run (n + 1) a = .err k := by
@@ -420,6 +416,76 @@ theorem run_err_of_steps : ∀ (n : Nat) (a b : Cfg) (k : Err),
     | next c' => rw [hs] at h1; exact ih c' b k h1 h2
     | halt v st => rw [hs] at h1; cases h1
     | err e => rw [hs] at h1; cases h1
+
+/-- **Errors, full statement.**  If the reference semantics ends with the error `k` (arity mismatch, type error of a
+primitive or box operation, call of a non-procedure, unbound global) — raised anywhere: at top level, inside operands,
+inside closure bodies reached by calls, tail calls or self tail calls, at any depth — the VM running the compiled
+program reports the same error `k`. -/
+theorem compile_correct_core_errors (fuel : Nat) (e : Core) (σ : St Core) (k : Err) (hk : k ≠ .bad)
+    (h : evalTop fuel e σ = .err k) :
+    ∃ n, run n (initCfg (compileTop e) (toSt σ)) = .err k := by
+  unfold evalTop at h
+  cases he : evalC fuel none false e [] [] σ with
+  | ok r => simp [he, Res.map] at h
+  | timeout => simp [he, Res.map] at h
+  | err k' =>
+    simp only [he, Res.map, Res.err.injEq] at h
+    subst h
+    obtain ⟨c, ⟨n, hn⟩, hs⟩ := (err_all fuel).1 e none false [] [] σ k' he hk 0 0 [] [.POPPURE] [] [] rfl
+      ⟨rfl, rfl, by intro a r b hh; cases hh⟩ (by simp)
+    exact ⟨n + 1, run_err_of_steps n _ c k' (by simpa [initCfg, compileTop, at_] using hn) hs⟩
+
+theorem run_mono_gen : ∀ (n m : Nat) (c : Cfg) (r : Res (VVal × St (List Instr))),
+    run n c = r → r ≠ .timeout → run (n + m) c = r := by
+  intro n
+  induction n with
+  | zero => intro m c r h hr; simp [run] at h; exact absurd h.symm hr
+  | succ n ih =>
+    intro m c r h hr
+    rw [Nat.add_right_comm]
+    simp only [run] at h ⊢
+    cases hs : step c with
+    | next c' => rw [hs] at h; simp only; exact ih m c' r h hr
+    | halt v st => rw [hs] at h; simpa using h
+    | err e => rw [hs] at h; simpa using h
+
+/-- `run` is deterministic in the fuel: two runs that both finish agree. -/
+theorem run_agree (n m : Nat) (c : Cfg) (hn : run n c ≠ .timeout) (hm : run m c ≠ .timeout) : run n c = run m c := by
+  have h1 := run_mono_gen n m c _ rfl hn
+  have h2 := run_mono_gen m n c _ rfl hm
+  rw [Nat.add_comm] at h2
+  rw [← h1, h2]
+
+/-- **The outcome of the VM is the outcome of the semantics** (value or error).  Whenever the semantics finishes
+(not out of fuel) with anything but `bad`, every finishing run of the VM yields exactly the corresponding outcome.  In
+particular an error reported by the VM is an error raised by the semantics: code the semantics does not execute
+(untaken branches, bodies of closures never called, operands after a failing one) never raises in the VM. -/
+theorem vm_outcome_is_semantic_outcome (fuel n : Nat) (e : Core) (σ : St Core)
+    (hsem : evalTop fuel e σ ≠ .timeout) (hbad : evalTop fuel e σ ≠ .err .bad)
+    (hvm : run n (initCfg (compileTop e) (toSt σ)) ≠ .timeout) :
+    run n (initCfg (compileTop e) (toSt σ)) = (evalTop fuel e σ).map (fun r => (toV r.1, toSt r.2)) := by
+  cases hs : evalTop fuel e σ with
+  | timeout => exact absurd hs hsem
+  | ok r =>
+    obtain ⟨v, σ'⟩ := r
+    obtain ⟨m, hm⟩ := compile_correct_core fuel e σ σ' v hs
+    rw [run_agree n m _ hvm (by rw [hm]; simp), hm]; rfl
+  | err k =>
+    have hk : k ≠ .bad := by intro hk; subst hk; exact hbad hs
+    obtain ⟨m, hm⟩ := compile_correct_core_errors fuel e σ k hk hs
+    rw [run_agree n m _ hvm (by rw [hm]; simp), hm]; rfl
+
+/-- An error in the VM implies that the semantics raises it. -/
+theorem vm_error_is_semantic_error (fuel n : Nat) (e : Core) (σ : St Core) (k : Err)
+    (hsem : evalTop fuel e σ ≠ .timeout) (hbad : evalTop fuel e σ ≠ .err .bad)
+    (hvm : run n (initCfg (compileTop e) (toSt σ)) = .err k) :
+    evalTop fuel e σ = .err k := by
+  have := vm_outcome_is_semantic_outcome fuel n e σ hsem hbad (by rw [hvm]; simp)
+  rw [hvm] at this
+  cases hs : evalTop fuel e σ with
+  | timeout => exact absurd hs hsem
+  | ok r => rw [hs] at this; simp [Res.map] at this
+  | err k' => rw [hs] at this; simp only [Res.map, Res.err.injEq] at this; rw [this]
 
 /-- `FUNC n` / `TAILCALL n` with a callee that is not a procedure: the error `notproc`, whatever the operands. -/
 theorem call_of_nonprocedure_is_error (c : Cfg) (n : Nat) (below args : List VVal) (f : VVal)
@@ -589,5 +655,84 @@ example : compileTop mkE =
      .FUNC 1, .MOVEREADLOCAL 0, .CALLGLOBAL 0, .FUNC 2, .SETBOX, .FUNC 2, .POPSINGLE, .READCAPTURED 0, .UNBOX,
      .TAILCALL 1, .POPPURE, .ECLOSURE 1, .LETENDSCOPE 1, .POPPURE, .ECLOSURE 1, .EDEF, .BIND 10, .VOID,
      .POPPURE] := by decide
+
+/-! ## Two source closures created in the same scope over the same assigned variable -/
+
+theorem capture_get {α : Type} (env caps : List (V α)) : ∀ (cs : List CapSrc) (cv : List (V α)) (i k : Nat),
+    capture env caps cs = some cv → cs[i]? = some (.stack k) → cv[i]? = env[k]? := by
+  intro cs
+  induction cs with
+  | nil => intro cv i k _ h; simp at h
+  | cons c cs ih =>
+    intro cv i k hc hi
+    cases c with
+    | stack m =>
+      simp only [capture] at hc
+      cases hm : env[m]? with
+      | none => simp [hm] at hc
+      | some v =>
+        cases hr : capture env caps cs with
+        | none => simp [hm, hr] at hc
+        | some vs =>
+          simp only [hm, hr, Option.some.injEq] at hc
+          subst hc
+          cases i with
+          | zero => simp at hi; subst hi; simp [hm]
+          | succ i => simp at hi; simpa using ih vs i k hr hi
+    | closure m =>
+      simp only [capture] at hc
+      cases hm : caps[m]? with
+      | none => simp [hm] at hc
+      | some v =>
+        cases hr : capture env caps cs with
+        | none => simp [hm, hr] at hc
+        | some vs =>
+          simp only [hm, hr, Option.some.injEq] at hc
+          subst hc
+          cases i with
+          | zero => simp at hi
+          | succ i => simp at hi; simpa using ih vs i k hr hi
+
+/-- **A write through one closure is read through the other and by the defining scope.**  The scope holds the assigned
+variable `x` (a box, as the real compiler lowers a captured + assigned variable) in its slot `k`.  Two closures are
+created in that scope by `lambda`s whose capture lists — arbitrary otherwise — take slot `k` as capture `i` resp. `j`:
+the setter `(lambda (v) (set! x v))` and the getter `(lambda () x)`.  Then in ANY state in which the box exists,
+calling the setter with `vnew` and afterwards the getter yields `vnew`, and so does reading `x` in the defining scope. -/
+theorem two_closures_share_variable (env caps : List Val) (k a : Nat) (henv : env[k]? = some (.box a))
+    (cs1 cs2 : List CapSrc) (i j : Nat) (h1 : cs1[i]? = some (.stack k)) (h2 : cs2[j]? = some (.stack k))
+    (cv1 cv2 : List Val) (hc1 : capture env caps cs1 = some cv1) (hc2 : capture env caps cs2 = some cv2)
+    (σ : St Core) (vnew : Val) (hσ : a < σ.store.length) (fuel : Nat) (self : Self) (tail : Bool) :
+    ∃ old σ',
+      applyWith (fun s => evalC (fuel + 5) s true) (.clo 1 false (.boxop .set [.cap i, .loc 0 true]) cv1) [vnew] σ
+        = .ok (old, σ') ∧
+      applyWith (fun s => evalC (fuel + 5) s true) (.clo 0 false (.boxop .get [.cap j]) cv2) [] σ' = .ok (vnew, σ') ∧
+      evalC (fuel + 5) self tail (.boxop .get [.loc k false]) env caps σ' = .ok (vnew, env, σ') := by
+  have g1 : cv1[i]? = some (.box a) := by rw [capture_get env caps cs1 cv1 i k hc1 h1, henv]
+  have g2 : cv2[j]? = some (.box a) := by rw [capture_get env caps cs2 cv2 j k hc2 h2, henv]
+  have hold : ∃ old, σ.store[a]? = some old := ⟨σ.store[a], by simp [hσ]⟩
+  obtain ⟨old, ho⟩ := hold
+  have hset : BoxOp.apply .set [.box a, vnew] σ = .ok (old, { σ with store := σ.store.set a vnew }) := by
+    simp [BoxOp.apply, ho]
+  have hget := setbox_then_unbox a vnew old σ _ hset
+  refine ⟨old, { σ with store := σ.store.set a vnew }, ?_, ?_, ?_⟩
+  · have hsl : splitLast 2 [V.void, V.box a, vnew] = some ([V.void], [V.box a, vnew]) := by
+      simpa using splitLast_append 2 [V.void] [V.box a, vnew] rfl
+    simp [applyWith, bindArgs, evalC, evalArgs, g1, BoxOp.arity, hsl, hset]
+  · have hsl : splitLast 1 [(V.box a : Val)] = some ([], [V.box a]) := by
+      simpa using splitLast_append 1 ([] : List Val) [V.box a] rfl
+    simp [applyWith, bindArgs, evalC, evalArgs, g2, BoxOp.arity, hsl, hget]
+  · exact (closure_captures_by_reference a vnew old σ _ hset).2.1 self tail env caps k (fuel + 2) henv
+
+/-- The same as a whole source program, for EVERY constant `c`, on the VM: `(define-values (set get) (let ((x 0))
+(values (lambda (v) (set! x v)) (lambda () x))))`, `(set c)`, `(get)` — the compiled program run by the VM yields the
+old value `0` for the `set!` and then `c` for the read. -/
+theorem shared_variable_program (c : Const) :
+    ∃ n st, runProgram n ([sharedE, .callG 20 [.const c], .callG 21 []].map compileTop) (toSt σ0) =
+      .ok ([.void, .int 0, c.toV], st) := by
+  have h : ∃ σ', evalProgram 30 [sharedE, .callG 20 [.const c], .callG 21 []] σ0 =
+      .ok ([.void, .int 0, c.toV], σ') := ⟨_, rfl⟩
+  obtain ⟨σ', h⟩ := h
+  obtain ⟨n, hn⟩ := compile_correct_program 30 _ σ0 σ' _ h
+  exact ⟨n, toSt σ', by simpa using hn⟩
 
 end SteelVerif.C01C
